@@ -15,6 +15,13 @@ Case kinds (numbers are ints or "p/q" dyadics, exactly representable as doubles;
   pool      `pool_rdm` of util/inference_util.py and of util/pooling.py
   regress   `fit_regress` / `fit_regress_nn` with pattern bootstrap or explicit masks
   subsample `RDMs.subsample_pattern` with repeated patterns, exact
+  session   (round 3) several calls (mean / rescale / compare / pool / fit) on *shared* objects: the same
+            RDMs objects, one 2-D float ndarray of per-entry weights and one 1-D ndarray of per-RDM weights
+            (passed as arguments and stored as rdm_descriptors of every stack), the same sigma_k arrays;
+            every call is judged on its own by the property with the inputs as the caller built them, so a
+            call that poisons a shared input shows up at the next call
+compare / parse cases also carry a memory layout / dtype of the input arrays (C, Fortran, strided view,
+negative row stride, float32).
 """
 import importlib
 import math
@@ -47,6 +54,13 @@ THEOREMS = [P + n for n in (
     'poolShift_pooling', 'poolShift_inferenceUtil', 'poolShift_monotone_min', 'poolRdm_common_mask',
     'regress_common_mask', 'regress_rejects_differing', 'poolRows_length', 'fit_pipeline_common_mask',
     'subsample_mask', 'bootstrap_compare_not_rejected',
+    # round 3
+    'parseOf_eq_parseCoded',
+    'nanMeanEntry_sq_error_decomposition', 'nanMeanEntry_minimises_weighted_sq_error', 'nanMean_getElem?_some',
+    'evidenceWeight_eq', 'setsizeWeight_eq', 'rescaleWeights_pos', 'alignRow_norm',
+    'rescale_pass_estimate_minimises', 'rescale_pass_consensus_common_scale', 'rescale_pass_keeps_common_scale',
+    'regress_ls_nn_same_equations', 'regressNN_common_mask', 'fitNN_pipeline_common_mask',
+    'regressNN_rejects_differing',
 )]
 RULE = ('cases come from one PRNG; kinds compare (n = 4..6 conditions, stacks of 1..3 RDMs, small '
         'integer / quarter values with ties; every method of C03 incl. Bures; sigma_k none / vector / '
@@ -58,7 +72,11 @@ RULE = ('cases come from one PRNG; kinds compare (n = 4..6 conditions, stacks of
         '(three methods, proportional and non-proportional partial RDMs, thresholds 1e-8 and 1e-13), '
         'pool (both pool_rdm copies, all methods, common / differing masks), regress (fit_regress and '
         'fit_regress_nn, four methods, sigma_k, ridge, pattern bootstrap or explicit masks, differing '
-        'masks), subsample (exact). A case is non-trivial when at least one entry is missing or a '
+        'masks), subsample (exact), session (3-8 calls of mean / rescale / compare / pool / fit on shared '
+        'RDMs objects, one shared 2-D float weight ndarray and 1-D weight ndarray (argument, list copy or '
+        'rdm_descriptor), shared sigma_k arrays; stacks a, b with one common mask, c, d partial RDMs with '
+        'other masks; every call judged separately). compare / parse inputs come in C, Fortran, strided, '
+        'negative-stride and float32 layouts. A case is non-trivial when at least one entry is missing or a '
         'weight differs from 1; distinct = distinct case content.')
 METHODS = ['cosine', 'corr', 'spearman', 'kendall', 'tau-a', 'rho-a', 'corr_cov', 'cosine_cov',
            'bures', 'bures_metric']
@@ -69,6 +87,7 @@ POOL_METHODS = {'inf': ['euclid', 'cosine', 'corr', 'cosine_cov', 'corr_cov', 's
                 'pool': ['euclid', 'cosine', 'corr', 'cosine_cov', 'corr_cov', 'spearman', 'rho-a',
                          'kendall', 'tau-b', 'tau-a']}
 FIT_METHODS = ['cosine', 'corr', 'cosine_cov', 'corr_cov']
+NN_EPS = 100 * float(np.finfo(float).eps)      # `tol = 100 * np.finfo(float).eps * np.max(np.abs(w))`
 BRANCHES = (['method:' + m for m in METHODS] + ['mask:' + k for k in MASKKINDS] +
             ['sigma:none', 'sigma:vec', 'sigma:mat', 'fast_path_nan', 'slow_path_nan',
              'input:array', 'input:rdms', 'input:mixed', 'input:vector', 'rejected', 'accepted_with_nan',
@@ -82,7 +101,13 @@ BRANCHES = (['method:' + m for m in METHODS] + ['mask:' + k for k in MASKKINDS] 
              'rescale:nonproportional', 'rescale:partials',
              'pool:inf', 'pool:pool', 'pool:common', 'pool:differing', 'pool:cov_sigma',
              'regress:ls', 'regress:nn', 'regress:bootstrap', 'regress:rejected', 'regress:ridge',
-             'regress:sigma', 'regress:sigma_vec', 'pool:sigma_vec'])
+             'regress:sigma', 'regress:sigma_vec', 'pool:sigma_vec',
+             'layout:f', 'layout:strided', 'layout:f32', 'layout:rowrev', 'layout:noncontiguous_array_with_nan',
+             'parse:layout:f', 'parse:layout:strided', 'parse:layout:f32', 'parse:layout:rowrev',
+             'kind:session', 'session:weights_reused_other_mask', 'session:weights_list_after_array',
+             'session:weights_back_to_first_stack', 'session:rdm_weights_reused', 'session:sigma_reused',
+             'session:rdms_reused', 'session:mixed_ops', 'session:mean_after_rescale', 'session:step_rejected']
+            + ['session:op:' + o for o in ('mean', 'rescale', 'compare', 'pool', 'fit')])
 ASSUMPTIONS = [
     'IEEE evaluation of either side is within the stated tolerance of the real value (small '
     'integer / quarter inputs, n <= 6, well-conditioned sigma_k and regression designs)',
@@ -93,8 +118,8 @@ TRUSTED_EXTRA = [
     'contract: scipy.sparse.linalg.cg / np.linalg.solve / np.linalg.inv solve the linear systems they are given '
     '(model: Gauss-Jordan `Rsa.Compare.solve`)',
     'contract: scipy.stats.rankdata = tie-averaged ranks (checked exactly by C03)',
-    'fit_regress_nn: the active-set loop is not modelled; the fit is compared with the model only '
-    'where the unconstrained optimum is non-negative, elsewhere with `_nn_least_squares` on the reduced inputs',
+    'fit_regress_nn: the active-set loop is C08\'s model `Rsa.Fit.nnls` (its optimality is C08\'s matter); C13 proves '
+    'that the loop receives the normal equations of the reduced vectors / reduced V',
 ]
 
 _cmp = importlib.import_module('rsatoolbox.rdm.compare')
@@ -119,6 +144,24 @@ def _out(a):
         v = float(a)
         return None if math.isnan(v) else v
     return [_out(r) for r in a]
+
+
+LAYOUTS = ['c', 'c', 'f', 'strided', 'f32', 'rowrev']
+
+
+def _lay(a, layout):
+    """the same values in another memory layout / dtype (all case values are exactly representable in float32)"""
+    if layout == 'f':
+        return np.asfortranarray(a)
+    if layout == 'strided':                 # every second column of a wider C array
+        wide = np.full((a.shape[0], 2 * a.shape[1]), 7.0)
+        wide[:, ::2] = a
+        return wide[:, ::2]
+    if layout == 'f32':
+        return a.astype(np.float32)
+    if layout == 'rowrev':                  # negative row stride
+        return a[::-1].copy()[::-1]
+    return a
 
 
 def _sigma_np(sig):
@@ -157,7 +200,7 @@ class _Timeout(Exception):
 def _with_alarm(seconds, fn):
     """safety net: `_nn_least_squares` used to loop forever on well-posed inputs (repaired by 217b28e5:
     bounded iterations); a call that still exceeds the limit is cut off and reported as
-    {'exc': 'Timeout'} (feature `nn_timeout`, not judged)"""
+    {'exc': 'Timeout'} — judged like any other exception of the library (a fit that does not return)"""
     import signal
     import threading
     if threading.current_thread() is not threading.main_thread():
@@ -176,11 +219,11 @@ def _with_alarm(seconds, fn):
         signal.signal(signal.SIGALRM, old)
 
 
-def _call(x, y, method, sigma, form):
+def _call(x, y, method, sigma, form, layout='c'):
     from rsatoolbox.rdm import RDMs
 
     def go():
-        xa, ya = _arr(x), _arr(y)
+        xa, ya = _lay(_arr(x), layout), _lay(_arr(y), layout)
         if form in ('rdms', 'mixed'):
             xa = RDMs(dissimilarities=xa)
         if form == 'rdms':
@@ -286,6 +329,7 @@ def _compare_case(rng, method, maskkind, nmax):
     styles = ['ties', 'pos', 'quarters', 'distinct', 'distinct', 'neg']
     case = {'kind': 'compare', 'method': method, 'n': n, 'maskkind': maskkind,
             'form': rng.choice(['array', 'rdms', 'rdms', 'mixed', 'vector'])}
+    case['layout'] = rng.choice(LAYOUTS)
     if case['form'] == 'vector':
         nx, ny = rng.choice([(1, 1), (1, 2), (2, 1)])
     if method in ('corr_cov', 'cosine_cov'):
@@ -363,7 +407,7 @@ def _compare_case(rng, method, maskkind, nmax):
 def _parse_case(rng):
     c = _compare_case(rng, 'cosine', rng.choice(['none', 'common', 'common', 'between', 'between_count',
                                                  'one_side', 'within', 'within_count', 'shape']), 5)
-    return {'kind': 'parse', 'x': c['x'], 'y': c['y'], 'maskkind': c['maskkind']}
+    return {'kind': 'parse', 'x': c['x'], 'y': c['y'], 'maskkind': c['maskkind'], 'layout': c['layout']}
 
 
 def _weights(rng, wkind, v):
@@ -558,6 +602,125 @@ def _subsample_case(rng):
     return {'kind': 'subsample', 'n': n, 'v': v, 'idx': idx, 'how': how}
 
 
+# ------------------------------------------------------------------ sessions (objects reused across calls)
+
+SESSION_CMP = ['cosine', 'corr', 'spearman', 'kendall', 'tau-a', 'rho-a', 'corr_cov', 'cosine_cov']
+SESSION_OPS = ['mean', 'rescale', 'compare', 'pool', 'fit']
+
+
+def _session_step(rng, op, k):
+    if op == 'mean':
+        w = rng.choice(['W2', 'W2', 'W2', 'W1', 'none'])
+        form = {'W2': ['array', 'array', 'array', 'desc', 'list'], 'W1': ['array', 'desc', 'list'],
+                'none': ['none']}[w]
+        return {'op': 'mean', 'stack': rng.choice(['a', 'b', 'c', 'c', 'd', 'd']), 'w': w, 'wform': rng.choice(form)}
+    if op == 'rescale':
+        return {'op': 'rescale', 'stack': rng.choice(['c', 'd', 'a']),
+                'method': rng.choice(['evidence', 'setsize', 'simple'])}
+    if op == 'compare':
+        x, y = rng.choice([('a', 'b'), ('b', 'a'), ('a', 'a'), ('a', 'b'), ('a', 'c'), ('c', 'c'), ('d', 'b')])
+        method = rng.choice(SESSION_CMP)
+        return {'op': 'compare', 'x': x, 'y': y, 'method': method,
+                'sigma': rng.choice(['none', 'Sv', 'Sm']) if method.endswith('_cov') else 'none'}
+    if op == 'pool':
+        stack = rng.choice(['a', 'b', 'b', 'c'])
+        variant = rng.choice(['inf', 'pool'])
+        method = rng.choice(POOL_METHODS['pool'] if stack != 'c' else ['euclid', 'cosine', 'spearman', 'corr'])
+        return {'op': 'pool', 'stack': stack, 'variant': variant, 'method': method,
+                'sigma': rng.choice(['none', 'Sv', 'Sm']) if (variant == 'pool' and method.endswith('_cov')) else 'none'}
+    method = rng.choice(FIT_METHODS)
+    return {'op': 'fit', 'method': method, 'nn': rng.random() < 0.5, 'ridge': rng.choice([0, 0, '1/2', 1]),
+            'normalize': rng.random() < 0.7,
+            'sigma': rng.choice(['none', 'Sv', 'Sm']) if method.endswith('_cov') else 'none'}
+
+
+def _session_case(rng):
+    """several calls on *shared* objects: the same RDMs objects, the same weight arrays (a 2-D float ndarray
+    of per-entry weights, a 1-D ndarray of per-RDM weights; also stored as rdm_descriptors of every stack),
+    the same sigma_k arrays.  Stacks `a` (model RDMs) and `b` (data RDMs) lack one common set of entries,
+    `c` and `d` are partial RDMs each lacking other entries.  Every call is judged on its own by the
+    property, with the weights / sigma_k / RDMs *as the caller built them*."""
+    n, m = 5, 10
+    k = rng.randint(2, 3)
+    while True:
+        a_full = [_vector(rng, m, rng.choice(['pos', 'distinct'])) for _ in range(k)]
+        b_full = [_vector(rng, m, rng.choice(['pos', 'quarters', 'distinct'])) for _ in range(k)]
+        mask = _mask(rng, m, k + 3, max_drop=3)
+        a = [_apply(mask, r) for r in a_full]
+        b = [_apply(mask, r) for r in b_full]
+        if _nonconst(a) and _nonconst(b) and _well_conditioned(a_full, mask):
+            break
+
+    def partial_stack():
+        while True:
+            rows = []
+            for _ in range(k):
+                r = _vector(rng, m, rng.choice(['pos', 'quarters']))
+                mk = _mask(rng, m, 4) if rng.random() < 0.85 else [True] * m
+                rows.append(_apply(mk, r))
+            masks = [[v is not None for v in r] for r in rows]
+            if any(mm != mask for mm in masks) and orc.overlap_connected(masks):
+                return rows
+    case = {'kind': 'session', 'n': n,
+            'stacks': {'a': a, 'b': b, 'c': partial_stack(), 'd': partial_stack()},
+            'weights': {'W2': [[rng.choice([1, 2, 3, '1/2', '1/4', 5]) for _ in range(m)] for _ in range(k)],
+                        'W1': [rng.choice([1, 2, 3, '1/2', '3/2', 4]) for _ in range(k)]},
+            'sigmas': {'Sv': _sigma(rng, n, 'vec'), 'Sm': _sigma(rng, n, 'mat')}}
+    steps = []
+    theme = rng.random()
+    if theme < 0.5:
+        # one per-entry weight array used for stacks whose missing entries differ, then once more
+        s1, s2 = rng.sample(['a', 'c', 'd'], 2)
+        steps.append({'op': 'mean', 'stack': s1, 'w': 'W2', 'wform': rng.choice(['array', 'array', 'desc'])})
+        if rng.random() < 0.5:
+            steps.append(_session_step(rng, rng.choice(SESSION_OPS), k))
+        steps.append({'op': 'mean', 'stack': s2, 'w': 'W2', 'wform': rng.choice(['array', 'array', 'desc', 'list'])})
+        if rng.random() < 0.5:
+            steps.append({'op': 'mean', 'stack': s1, 'w': 'W2', 'wform': 'array'})
+    elif theme < 0.7:
+        # one sigma_k array through compare / pool / fit
+        sg = rng.choice(['Sv', 'Sm'])
+        steps.append({'op': 'compare', 'x': 'a', 'y': 'b', 'method': rng.choice(['corr_cov', 'cosine_cov']), 'sigma': sg})
+        steps.append({'op': 'fit', 'method': rng.choice(['corr_cov', 'cosine_cov']), 'nn': rng.random() < 0.5,
+                      'ridge': 0, 'normalize': True, 'sigma': sg})
+        steps.append({'op': 'pool', 'stack': 'b', 'variant': 'pool', 'method': rng.choice(['corr_cov', 'cosine_cov']),
+                      'sigma': sg})
+        steps.append({'op': 'compare', 'x': 'b', 'y': 'a', 'method': rng.choice(['corr_cov', 'cosine_cov']), 'sigma': sg})
+        rng.shuffle(steps)
+    elif theme < 0.82:
+        # one per-RDM weight vector (argument or shared descriptor) for several stacks
+        for st_ in rng.sample(['a', 'c', 'd', 'b'], rng.randint(2, 3)):
+            steps.append({'op': 'mean', 'stack': st_, 'w': 'W1', 'wform': rng.choice(['array', 'desc'])})
+    for _ in range(rng.randint(1, 3)):
+        steps.insert(rng.randint(0, len(steps)), _session_step(rng, rng.choice(SESSION_OPS), k))
+    case['steps'] = steps
+    return case
+
+
+def _session_subcases(case):
+    """every step as a single-call case of its own kind, with the shared inputs as the caller built them"""
+    n, st, W, S = case['n'], case['stacks'], case['weights'], case['sigmas']
+    subs = []
+    for s in case['steps']:
+        op = s['op']
+        if op == 'mean':
+            wk = {'none': 'none', 'W2': 'entry_array', 'W1': 'rdm_array'}[s['w']]
+            subs.append({'kind': 'mean', 'n': n, 'wkind': wk, 'v': st[s['stack']], 'w': W.get(s['w'])})
+        elif op == 'rescale':
+            subs.append({'kind': 'rescale', 'method': s['method'], 'thr': '1e-8', 'n': n, 'd': st[s['stack']]})
+        elif op == 'compare':
+            subs.append({'kind': 'compare', 'method': s['method'], 'n': n, 'maskkind': 'session', 'form': 'rdms',
+                         'sigma': S.get(s['sigma']), 'x': st[s['x']], 'y': st[s['y']]})
+        elif op == 'pool':
+            subs.append({'kind': 'pool', 'variant': s['variant'], 'method': s['method'], 'n': n,
+                         'sigma': S.get(s['sigma']), 'stack': st[s['stack']], 'maskkind': 'session', 'zero_row': None})
+        else:
+            subs.append({'kind': 'regress', 'method': s['method'], 'nn': s['nn'], 'mode': 'session',
+                         'ridge': s['ridge'], 'normalize': s['normalize'], 'n': n, 'A': st['a'], 'data': st['b'],
+                         'sigma': S.get(s['sigma'])})
+    return subs
+
+
 def generate(rng, tier):
     quick = tier == 'quick'
     reps = 8 if quick else 60
@@ -595,6 +758,8 @@ def generate(rng, tier):
                 yield _regress_case(rng, method, nn, rng.choice(['bootstrap', 'bootstrap', 'common', 'none', 'reject']))
     for _ in range(150 if quick else 1000):
         yield _subsample_case(rng)
+    for _ in range(160 if quick else 1500):
+        yield _session_case(rng)
 
 
 def search(rng, tier):
@@ -614,6 +779,8 @@ def search(rng, tier):
             yield _regress_case(rng, rng.choice(FIT_METHODS), k % 2 == 1,
                                 rng.choice(['bootstrap', 'common', 'reject']))
             yield _subsample_case(rng)
+        if k % 2 == 0:
+            yield _session_case(rng)
 
 
 # ------------------------------------------------------------------ implementation side
@@ -674,7 +841,7 @@ def _impl_compare(case):
                     'res': _out(_cmp.compare(rx, ry, method=case['method'], sigma_k=_sigma_np(case['sigma'])))}
         r = _quiet(go)
     else:
-        r = _call(case['x'], case['y'], case['method'], case['sigma'], case['form'])
+        r = _call(case['x'], case['y'], case['method'], case['sigma'], case['form'], case.get('layout', 'c'))
         r = r if isinstance(r, dict) else {'res': r}
         if case['method'] in ('cosine_cov', 'corr_cov') and 'res' in r:
             def direct():
@@ -697,7 +864,7 @@ def _impl_compare(case):
 
 
 def _impl_parse(case):
-    x, y = _arr(case['x']), _arr(case['y'])
+    x, y = _lay(_arr(case['x']), case.get('layout', 'c')), _lay(_arr(case['y']), case.get('layout', 'c'))
 
     def one(fn, mask_row):
         def go():
@@ -818,8 +985,84 @@ def _impl_subsample(case):
     return _quiet(go)
 
 
+def _impl_session(case):
+    """all steps on shared objects, in order; one result per step in the format of the single-call kinds"""
+    from rsatoolbox.rdm import RDMs
+    from rsatoolbox.model import ModelWeighted, fitter
+    from rsatoolbox.util import inference_util, pooling
+    W = {'W2': _arr(case['weights']['W2']), 'W1': np.array([_fl(a) for a in case['weights']['W1']], dtype=float)}
+    S = {'none': None}
+    S.update({k_: _sigma_np(v_) for k_, v_ in case['sigmas'].items()})
+    objs = {name: RDMs(_arr(st), rdm_descriptors={'w1': W['W1'], 'w2': W['W2']}, descriptors={'session': name})
+            for name, st in case['stacks'].items()}
+    model = ModelWeighted('m', objs['a'])
+    out = []
+    for s in case['steps']:
+        op = s['op']
+        if op == 'mean':
+            def go(s=s):
+                r = objs[s['stack']]
+                if s['wform'] == 'none':
+                    mm = r.mean()
+                elif s['wform'] == 'desc':
+                    mm = r.mean(weights='w2' if s['w'] == 'W2' else 'w1')
+                elif s['wform'] == 'list':
+                    mm = r.mean(weights=[[_fl(a) for a in row] for row in case['weights']['W2']] if s['w'] == 'W2'
+                                else [_fl(a) for a in case['weights']['W1']])
+                else:
+                    mm = r.mean(weights=W[s['w']])
+                return {'mean': _out(mm.get_vectors()[0]), 'desc_is_dict': isinstance(mm.descriptors, dict),
+                        'source': _out(r.get_vectors()), 'n_rdm': int(mm.n_rdm)}
+            out.append(_quiet(go))
+        elif op == 'rescale':
+            calls = [0]
+            orig = _comb._mean
+
+            def counted(*a, **k):
+                calls[0] += 1
+                if calls[0] > 3000:
+                    raise _NoConvergence()
+                return orig(*a, **k)
+
+            def go(s=s, calls=calls, orig=orig, counted=counted):
+                r = objs[s['stack']]
+                _comb._mean = counted
+                try:
+                    res = _comb.rescale(r, method=s['method'], threshold=1e-8)
+                finally:
+                    _comb._mean = orig
+                return {'aligned': _out(res.get_vectors()),
+                        'weights': _out(np.asarray(res.rdm_descriptors['rescalingWeights'])),
+                        'passes': calls[0] - 1, 'source': _out(r.get_vectors()), 'converged': True}
+            out.append(_quiet(go))
+        elif op == 'compare':
+            def go(s=s):
+                return {'res': _out(_cmp.compare(objs[s['x']], objs[s['y']], method=s['method'],
+                                                 sigma_k=S[s['sigma']]))}
+            out.append(_quiet(go))
+        elif op == 'pool':
+            def go(s=s):
+                r = objs[s['stack']]
+                if s['variant'] == 'inf':
+                    p_ = inference_util.pool_rdm(r, method=s['method'])
+                else:
+                    p_ = pooling.pool_rdm(r, method=s['method'], sigma_k=S[s['sigma']])
+                return {'pooled': _out(p_.get_vectors()[0])}
+            out.append(_quiet(go))
+        else:
+            def go(s=s):
+                fit = fitter.fit_regress_nn if s['nn'] else fitter.fit_regress
+                theta = fit(model, objs['b'], method=s['method'], sigma_k=S[s['sigma']],
+                            ridge_weight=_fl(s['ridge']), normalize=s['normalize'])
+                return {'theta': [float(t) for t in np.asarray(theta).ravel()]}
+            out.append(_with_alarm(10.0, lambda go=go: _quiet(go)) if s['nn'] else _quiet(go))
+    # the shared inputs after the session (informative; judged by C12, not here)
+    return {'steps': out}
+
+
 _IMPL = {'compare': _impl_compare, 'parse': _impl_parse, 'mean': _impl_mean, 'rescale': _impl_rescale,
-         'pool': _impl_pool, 'regress': _impl_regress, 'subsample': _impl_subsample}
+         'pool': _impl_pool, 'regress': _impl_regress, 'subsample': _impl_subsample,
+         'session': _impl_session}
 
 
 def run_impl(case):
@@ -886,13 +1129,15 @@ def model_requests(case):
         base = {'op': 'c13.regress', 'method': case['method'], 'n': case['n'],
                 'sigma': _sigma_wire(case['sigma'], _encf), 'A': _stack_wire(case['A'], _encf),
                 'data': _stack_wire(case['data'], _encf)}
-        reqs = [dict(base, ridge=_encf(case['ridge']), normalize=case['normalize'])]
         if case['nn']:
-            reqs.append(dict(base, ridge=_encf(case['ridge']), normalize=False))
-        return reqs
+            # `fit_regress_nn`: C08's active-set model (`Rsa.Fit.nnls`) on the reduced normal equations
+            return [dict(base, ridge=_encf(case['ridge']), normalize=case['normalize'], nn=True, eps=fbits(NN_EPS))]
+        return [dict(base, ridge=_encf(case['ridge']), normalize=case['normalize'])]
     if k == 'subsample':
         return [{'op': 'c13.subsample', 'n': case['n'], 'sel': sorted(case['idx']), 'v': [_encq(a) for a in v]}
                 for v in case['v']]
+    if k == 'session':
+        return [r for sub in _session_subcases(case) for r in model_requests(sub)]
     raise ValueError(k)
 
 
@@ -918,6 +1163,13 @@ def model_result(case, answers):
         if isinstance(a, dict) and 'model_error' in a:
             return a
     k = case['kind']
+    if k == 'session':
+        out, pos = [], 0
+        for sub in _session_subcases(case):
+            cnt = len(model_requests(sub))
+            out.append(model_result(sub, answers[pos:pos + cnt]))
+            pos += cnt
+        return {'steps': out}
     a = answers[0]
     if k == 'compare':
         out = {}
@@ -927,7 +1179,7 @@ def model_result(case, answers):
         return out
     if k == 'parse':
         out = {}
-        for key in ('coded', 'legacy'):
+        for key in ('coded', 'utils', 'legacy'):
             r = a[key]
             out[key] = r if 'exc' in r else {'x': _dec_q(r['x']), 'y': _dec_q(r['y']), 'mask': r['mask']}
         return out
@@ -940,8 +1192,8 @@ def model_result(case, answers):
         return {'coded': _dec_f(a['coded']), 'deleted': _dec_f(a['deleted'])}
     if k == 'regress':
         out = {'exc': a['exc']} if 'exc' in a else {'theta': _dec_f(a['theta'])}
-        if case['nn'] and len(answers) > 1 and 'theta' in answers[1]:
-            out['theta_raw'] = _dec_f(answers[1]['theta'])
+        if 'exited' in a:
+            out['exited'] = a['exited']
         return out
     if k == 'subsample':
         return {'v': [_dec_q(r['v']) for r in answers], 'mask': [r['mask'] for r in answers]}
@@ -1011,6 +1263,12 @@ def compare(case, impl, model):
     if isinstance(model, dict) and 'model_error' in model:
         return f'model error {model}'
     k = case['kind']
+    if k == 'session':
+        for i, (sub, im, mo) in enumerate(zip(_session_subcases(case), impl['steps'], model['steps'])):
+            d = compare(sub, im, mo)
+            if d:
+                return f'step {i} ({case["steps"][i]["op"]}): {d}'
+        return None
     if k == 'compare':
         cx = [[_fl(v) for v in r] for r in case['x']]
         cy = [[_fl(v) for v in r] for r in case['y']]
@@ -1051,7 +1309,7 @@ def compare(case, impl, model):
         return None
     if k == 'parse':
         for which in ('compare', 'utils', 'utils_rdms'):
-            r, c = impl[which], model['coded']
+            r, c = impl[which], model['coded' if which == 'compare' else 'utils']
             if 'exc' in c:
                 d = _cmp_exc(r, c['exc'])
                 if d:
@@ -1065,7 +1323,7 @@ def compare(case, impl, model):
         if 'exc' in impl:
             return f'impl raised {impl["exc"]}'
         if impl['source'] != [[_fl(v) for v in r] for r in case['v']]:
-            return 'stack produced by from_partials differs from the expected one'
+            return 'the RDMs object does not hold the expected vectors (from_partials output / source changed by an earlier call)'
         if not impl['desc_is_dict'] or impl['n_rdm'] != 1:
             return 'mean RDMs object malformed (descriptors not a dict / not one RDM)'
         return _diff_vec(impl['mean'], model['coded'], 1e-12, 1e-13, 'mean')
@@ -1073,7 +1331,7 @@ def compare(case, impl, model):
         if 'exc' in impl:
             return f'impl raised {impl["exc"]}'
         if impl['source'] != [[_fl(v) for v in r] for r in case['d']]:
-            return 'stack produced by from_partials differs from the expected one'
+            return 'the RDMs object does not hold the expected vectors (from_partials output / source changed by an earlier call)'
         if not model['converged']:
             return 'model: loop did not stop within its fuel'
         if impl['passes'] != model['passes']:
@@ -1095,22 +1353,14 @@ def compare(case, impl, model):
                 return 'model: pooling with a common mask differs from pooling the reduced rows: ' + d
         return None
     if k == 'regress':
-        if impl.get('exc') == 'Timeout':
-            return None          # non-terminating `_nn_least_squares` (C08 matter, see notes): not judged
         if 'exc' in model:
             return _cmp_exc(impl, model['exc'])
         if 'exc' in impl:
             return f'impl raised {impl["exc"]}, model gives theta'
         tol = 2e-3 if case['method'].endswith('_cov') else 1e-7
-        if case['nn']:
-            raw = model.get('theta_raw')
-            if raw is None or min(raw) <= 1e-6 * max(abs(t) for t in raw):
-                # constrained optimum on the boundary: judged against `_nn_least_squares` on the reduced inputs
-                exp = orc.regress_expected(case, _nnls)
-                if exp is None or 'exc' in exp:
-                    return None
-                return _diff_vec(impl['theta'], exp['theta'], tol, tol, 'theta (nn, reduced inputs)')
-        return _diff_vec(impl['theta'], model['theta'], tol, tol, 'theta')
+        if case['nn'] and not model.get('exited', True):
+            return 'model: the active-set loop of fit_regress_nn stopped at its iteration bound'
+        return _diff_vec(impl['theta'], model['theta'], tol, tol, 'theta (nn)' if case['nn'] else 'theta')
     if k == 'subsample':
         if 'exc' in impl:
             return f'impl raised {impl["exc"]}'
@@ -1136,10 +1386,20 @@ def features(case, impl):
     k = case['kind']
     f = {'kind': k}
     br = []
+    if k == 'session':
+        f['branches'] = _session_branches(case, impl)
+        f['n_steps'] = len(case['steps'])
+        return f
     if k == 'compare':
         sk = _sigma_kind(case['sigma'])
         f.update(method=case['method'], maskkind=case['maskkind'], sigma=sk, form=case['form'], n=case['n'])
         br += ['method:' + case['method'], 'mask:' + case['maskkind'], 'input:' + case['form']]
+        if 'boot' not in case and 'parts' not in case:
+            f['layout'] = case.get('layout', 'c')
+            br.append('layout:' + case.get('layout', 'c'))
+            if (_has_nan(case['x']) or _has_nan(case['y'])) and case.get('layout', 'c') != 'c' \
+                    and case['form'] in ('array', 'mixed', 'vector'):
+                br.append('layout:noncontiguous_array_with_nan')
         nan = _has_nan(case['x']) or _has_nan(case['y'])
         if case['method'] in ('corr_cov', 'cosine_cov'):
             br.append('sigma:' + sk)
@@ -1159,6 +1419,7 @@ def features(case, impl):
         br.append('kind:' + k)
     if k == 'parse':
         f['maskkind'] = case['maskkind']
+        br.append('parse:layout:' + case.get('layout', 'c'))
         if impl is not None and 'utils_rdms' in impl:
             br.append('parse:rdms_wrapper')
         if case['maskkind'] == 'shape':
@@ -1215,6 +1476,47 @@ def features(case, impl):
     return f
 
 
+def _session_branches(case, impl):
+    br = ['kind:session']
+    steps = case['steps']
+    masks = {name: [[v is not None for v in r] for r in st] for name, st in case['stacks'].items()}
+    for s_ in steps:
+        br.append('session:op:' + s_['op'])
+    # the same 2-D weight ndarray (argument or shared descriptor) in mean calls on stacks lacking other entries
+    arr = [(i, s_) for i, s_ in enumerate(steps) if s_['op'] == 'mean' and s_['w'] == 'W2'
+           and s_['wform'] in ('array', 'desc')]
+    for (i, s1) in arr:
+        later = [s2 for (j, s2) in enumerate(steps) if j > i and s2['op'] == 'mean' and s2['w'] == 'W2']
+        if any(masks[s2['stack']] != masks[s1['stack']] for s2 in later):
+            br.append('session:weights_reused_other_mask')
+        if any(s2['wform'] == 'list' for s2 in later):
+            br.append('session:weights_list_after_array')
+        if any(s2['stack'] == s1['stack'] for s2 in later) and any(s2['stack'] != s1['stack'] for s2 in later):
+            br.append('session:weights_back_to_first_stack')
+    if sum(1 for s_ in steps if s_['op'] == 'mean' and s_['w'] == 'W1' and s_['wform'] in ('array', 'desc')) > 1:
+        br.append('session:rdm_weights_reused')
+    sig = [s_['sigma'] for s_ in steps if s_.get('sigma', 'none') != 'none']
+    if any(sig.count(x) > 1 for x in set(sig)):
+        br.append('session:sigma_reused')
+    used = []
+    for s_ in steps:
+        used += [s_.get('stack'), s_.get('x'), s_.get('y')] + (['a', 'b'] if s_['op'] == 'fit' else [])
+    used = [u for u in used if u]
+    if any(used.count(x) > 1 for x in set(used)):
+        br.append('session:rdms_reused')
+    ops = [s_['op'] for s_ in steps]
+    for a_, b_ in zip(ops, ops[1:]):
+        if a_ != b_:
+            br.append('session:mixed_ops')
+            break
+    if 'rescale' in ops and 'mean' in ops[ops.index('rescale'):]:
+        br.append('session:mean_after_rescale')
+    if impl is not None and isinstance(impl, dict) and 'steps' in impl:
+        if any(isinstance(r, dict) and 'exc' in r for r in impl['steps']):
+            br.append('session:step_rejected')
+    return sorted(set(br))
+
+
 def nontrivial_key(case, impl):
     k = case['kind']
     if k == 'compare' and not (_has_nan(case['x']) or _has_nan(case['y'])):
@@ -1226,8 +1528,34 @@ def nontrivial_key(case, impl):
 
 # ------------------------------------------------------------------ oracle, shrink
 
+def _oracle_session(case):
+    impl = run_impl(case)
+    for i, (sub, im) in enumerate(zip(_session_subcases(case), impl['steps'])):
+        k = sub['kind']
+        if k == 'compare':
+            obs = im['res'] if 'res' in im else im
+            o = orc.check_compare(sub, lambda *a, obs=obs: obs)
+        elif k == 'mean':
+            o = orc.check_mean(sub, im)
+        elif k == 'rescale':
+            o = orc.check_rescale(sub, im)
+        elif k == 'pool':
+            o = orc.check_pool(sub, im)
+        else:
+            o = orc.check_regress(sub, im, _nnls)
+        if o:
+            st = case['steps'][i]
+            o['what'] = f'call {i + 1} of {len(case["steps"])} ({st["op"]}) on reused objects: ' + o['what']
+            o['features'] = dict(o.get('features', {}), kind='session', step=i, op=st['op'],
+                                 first_call=(i == 0))
+            return o
+    return None
+
+
 def oracle(case):
     k = case['kind']
+    if k == 'session':
+        return _oracle_session(case)
     if k == 'compare':
         if 'boot' in case or 'parts' in case:
             impl = run_impl(case)
@@ -1235,7 +1563,8 @@ def oracle(case):
             if 'vx' in impl and impl['vx'] != cx:
                 return orc.fail(case, 'mask_source', 'subsample_pattern / from_partials produced other vectors',
                                 impl['vx'], cx, maskkind=case['maskkind'])
-        return orc.check_compare(case, _call)
+        lay = case.get('layout', 'c')
+        return orc.check_compare(case, lambda x, y, me, sg, fo: _call(x, y, me, sg, fo, lay if fo == case['form'] else 'c'))
     impl = run_impl(case)
     if k == 'parse':
         return orc.check_parse(case, impl)
@@ -1254,6 +1583,15 @@ def oracle(case):
 
 def shrink(case, still_fails):
     best = case
+    if case['kind'] == 'session':
+        i = 0
+        while i < len(best['steps']) and len(best['steps']) > 1:
+            c = dict(best, steps=best['steps'][:i] + best['steps'][i + 1:])
+            if still_fails(c):
+                best = c
+            else:
+                i += 1
+        return best
     if case['kind'] == 'compare' and 'boot' not in case and 'parts' not in case:
         if len(best['x']) > 1 or len(best['y']) > 1:
             done = False
